@@ -160,6 +160,7 @@ func runC07(c *Ctx) {
 	r.Rule("layout", "constant header bytes and length fields of the buffer at WriteTo", 60)
 	r.Rule("icmp-message", "ICMP type/code and fixed NDP option header of every message handed to icmp4SendPacket/icmp6SendPacket", 10)
 	r.Rule("dst-mac", "Ethernet destination of every emitted frame is the MAC the caller passed", 11)
+	r.Rule("arp-addr", "sender/target addresses the library itself builds for an ARP frame name both MAC and IP", 10)
 	r.Rule("src-mac", "Ethernet source of every emitted frame is NICInfo.HostAddr4.MAC", 11)
 	r.Rule("checksum-order", "checksums are computed after the last write they cover", 4)
 	r.Rule("hop-limit", "hop limit 255 for link-local destinations", 1)
@@ -415,6 +416,7 @@ func runC07(c *Ctx) {
 
 	// ---- source MAC provenance ----
 	checkSrcMAC(c, libFns)
+	checkARPAddrComplete(c, libFns)
 
 	// ---- checksum order ----
 	for _, m := range []string{"SetPayload", "AppendPayload"} {
@@ -950,4 +952,120 @@ func paramFromCallers(c *Ctx, fn *ssa.Function, p *ssa.Parameter, depth int, see
 		why = w
 	}
 	return true, why
+}
+
+
+// checkARPAddrComplete: EncodeARP copies srcAddr.IP.AsSlice() / dstAddr.IP.AsSlice() into the 4-byte address
+// fields; the zero netip.Addr has an empty slice, so nothing is written and the field keeps whatever the pooled
+// buffer held before. Every packet.Addr that the library builds itself (composite literal) and that flows into an
+// EncodeARP address parameter - directly or through the parameters of the wrappers (RequestRaw, Reply, ...) -
+// must therefore set IP (0.0.0.0 is written as packet.IPv4zero) and MAC.
+func checkARPAddrComplete(c *Ctx, fns []*ssa.Function) {
+	type slot struct {
+		fn  *ssa.Function
+		idx int
+	}
+	sinks := map[slot]bool{}
+	if enc := c.P.Func("", "EncodeARP"); enc != nil {
+		for i, p := range enc.Params {
+			if strings.HasSuffix(p.Type().String(), "packet.Addr") {
+				sinks[slot{enc, i}] = true
+			}
+		}
+	}
+	if len(sinks) == 0 {
+		c.R.Fatal("EncodeARP address parameters not found")
+		return
+	}
+	// parameter of fn (possibly spilled to a local because a field address is taken)
+	paramOf := func(fn *ssa.Function, v ssa.Value) int {
+		if p, ok := v.(*ssa.Parameter); ok {
+			return paramIndex(fn, p)
+		}
+		if ld, ok := v.(*ssa.UnOp); ok && ld.Op == token.MUL {
+			if al, ok := ld.X.(*ssa.Alloc); ok && al.Referrers() != nil {
+				for _, r := range *al.Referrers() {
+					if st, ok := r.(*ssa.Store); ok && st.Addr == ssa.Value(al) {
+						if p, ok := st.Val.(*ssa.Parameter); ok {
+							return paramIndex(fn, p)
+						}
+					}
+				}
+			}
+		}
+		return -1
+	}
+	type site struct {
+		fn   *ssa.Function
+		call ssa.CallInstruction
+		arg  ssa.Value
+		into string
+	}
+	var lits []site
+	seenSite := map[ssa.Value]bool{}
+	for changed := true; changed; {
+		changed = false
+		for _, fn := range fns {
+			core.EachInstr(fn, func(i ssa.Instruction) {
+				call, ok := i.(ssa.CallInstruction)
+				if !ok {
+					return
+				}
+				callee := call.Common().StaticCallee()
+				if callee == nil {
+					return
+				}
+				args := call.Common().Args
+				for k, a := range args {
+					if !sinks[slot{callee, k}] {
+						continue
+					}
+					if pi := paramOf(fn, a); pi >= 0 {
+						if !sinks[slot{fn, pi}] {
+							sinks[slot{fn, pi}] = true
+							changed = true
+						}
+						continue
+					}
+					if ld, ok := a.(*ssa.UnOp); ok && ld.Op == token.MUL {
+						if al, ok := ld.X.(*ssa.Alloc); ok && !wholeStored(al) && !seenSite[a] {
+							// a composite literal (anonymous or built in place in a named local): set field by field
+							seenSite[a] = true
+							lits = append(lits, site{fn, call, a, core.FuncName(callee) + " " + callee.Params[k].Name()})
+						}
+					}
+				}
+			})
+		}
+	}
+	kg := core.NewKeyGen()
+	for _, s := range lits {
+		cf := complitFields(s.arg)
+		st := core.Proved
+		var missing []string
+		for _, f := range []string{"MAC", "IP"} {
+			if cf[f] == "" {
+				st = core.Violated
+				missing = append(missing, f)
+			}
+		}
+		key := strings.TrimSuffix(kg.Key("arp-addr "+core.FuncName(s.fn)+" -> "+s.into), "#0")
+		c.R.Add(core.Obligation{Rule: "arp-addr", Key: key, Func: core.FuncName(s.fn), Pos: c.P.Pos(core.PosOf(s.call.(ssa.Instruction))), Status: st,
+			Basis: fmt.Sprintf("Addr{MAC: %s, IP: %s}", cf["MAC"], cf["IP"]),
+			Detail: "the address built here for " + s.into + " leaves " + strings.Join(missing, ", ") + " at its zero value: EncodeARP copies an empty slice for it, so the ARP field keeps the previous contents of the pooled buffer instead of the value meant (0.0.0.0 must be written as packet.IPv4zero)"})
+	}
+}
+
+
+// wholeStored: some instruction stores a whole value into the local (as opposed to field-wise initialisation).
+func wholeStored(al *ssa.Alloc) bool {
+	if al.Referrers() == nil {
+		return false
+	}
+	for _, r := range *al.Referrers() {
+		if st, ok := r.(*ssa.Store); ok && st.Addr == ssa.Value(al) {
+			return true
+		}
+	}
+	return false
 }
